@@ -143,6 +143,14 @@ def gen_score(rng, profile="full", size="small"):
     return sc
 
 
+def tmap_ok(tmap, off):
+    try:
+        tmap(off)
+        return True
+    except AssertionError:
+        return False
+
+
 def gen_part(rng, pid, plan, has_pickup, profile):
     one_div = profile in ("match", "kernmei")
     nstaves = 1 if profile in ("match",) and rng.random() < 0.6 else rng.choice((1, 1, 2))
@@ -153,6 +161,8 @@ def gen_part(rng, pid, plan, has_pickup, profile):
             voices.append((v, s))
             v += 1
     tup_p = 0.0 if profile in ("kernmei",) and rng.random() < 0.5 else rng.choice((0.0, 0.15, 0.3))
+    gaps = rng.choice((0, 0, 0, 0.1)) if profile in ("full", "plain") else 0
+    unequal = rng.choice((0, 0, 0.5)) if profile in ("full", "plain", "midi") else 0
     min_dur = rng.choice((F(1, 8), F(1, 4), F(1, 4), F(1, 2)))
     # --- rhythms per measure per voice, in quarters relative to the measure start
     content = []  # per measure: list of (voice, staff, items)
@@ -188,6 +198,46 @@ def gen_part(rng, pid, plan, has_pickup, profile):
             if cur % denoms[m] != 0:
                 cur = lcm(cur, denoms[m])
             q_per_measure.append(cur)
+    # --- optional mid-measure divisions change at a boundary common to all voices
+    mid_split = {}
+    if not one_div and profile in ("full", "midi", "plain") :
+        for m, (L, _) in enumerate(plan):
+            if rng.random() < 0.12 and content[m]:
+                common = None
+                for vn, st, items in content[m]:
+                    b = set(off for off, d, sym, g in items if g is None or True)
+                    # a boundary must not fall inside a tuplet group
+                    inner = set()
+                    groups = {}
+                    for off, d, sym, g in items:
+                        if g is not None:
+                            groups.setdefault(g, []).append(off)
+                    for g, offs in groups.items():
+                        inner |= set(sorted(offs)[1:])
+                    b -= inner
+                    common = b if common is None else (common & b)
+                common = sorted(x for x in (common or ()) if 0 < x < L)
+                if common:
+                    x = rng.choice(common)
+                    q1 = q_per_measure[m]
+                    # the second half needs its own valid divisions value
+                    den2 = 1
+                    for vn, st, items in content[m]:
+                        for off, d, sym, g in items:
+                            if off >= x:
+                                den2 = lcm(den2, (off - x).denominator)
+                                den2 = lcm(den2, d.denominator)
+                    den2 = lcm(den2, (L - x).denominator)
+                    den1 = x.denominator
+                    for vn, st, items in content[m]:
+                        for off, d, sym, g in items:
+                            if off < x:
+                                den1 = lcm(den1, off.denominator)
+                                den1 = lcm(den1, d.denominator)
+                    if q1 % den1 == 0:
+                        q2 = den2 * rng.choice((1, 2, 3))
+                        if q2 != q1:
+                            mid_split[m] = (x, q2)
     # --- lay out on the integer timeline
     t = 0
     measures = []
@@ -202,7 +252,28 @@ def gen_part(rng, pid, plan, has_pickup, profile):
             qdivs.append([t, q])
         if change is not None:
             timesigs.append({"t": t, "beats": change[0], "beat_type": change[1]})
-        ln = L * q
+        if m in mid_split:
+            x, q2 = mid_split[m]
+            t_split = t + int(x * q)
+            ln = x * q + (L - x) * q2
+            qdivs.append([t_split, q2])
+
+            def tmap(off, t=t, q=q, x=x, q2=q2, t_split=t_split):
+                v = t + off * q if off <= x else t_split + (off - x) * q2
+                assert v.denominator == 1, (off, q, x, q2)
+                return int(v)
+
+            # following measures keep q2 unless they set their own value
+            if m + 1 < len(plan) and q_per_measure[m + 1] == q:
+                pass
+        else:
+            ln = L * q
+
+            def tmap(off, t=t, q=q):
+                v = t + off * q
+                assert v.denominator == 1, (off, q)
+                return int(v)
+
         assert ln.denominator == 1
         number = m + 1 if not has_pickup else m
         measures.append({"s": t, "e": t + int(ln), "number": m + 1, "name": str(number)})
@@ -210,9 +281,11 @@ def gen_part(rng, pid, plan, has_pickup, profile):
         for vn, st, items in content[m]:
             gmap = {}
             for off, d, sym, g in items:
-                s = t + int(off * q)
-                e = s + int(d * q)
+                s = tmap(off)
+                e = tmap(off + d)
                 kind = "rest" if rng.random() < 0.15 else "note"
+                if gaps and g is None and rng.random() < gaps:
+                    continue  # a gap: nothing at all in this voice here
                 chord = 1
                 if kind == "note" and rng.random() < 0.2:
                     chord = rng.choice((2, 2, 3))
@@ -221,6 +294,12 @@ def gen_part(rng, pid, plan, has_pickup, profile):
                 for c in range(chord):
                     nid[0] += 1
                     n = {"id": "%sn%d" % (pid.lower(), nid[0]), "kind": kind, "t": s, "e": e, "voice": vn, "staff": st, "sym": dict(sym), "m": m, "g": (m, vn, g) if g is not None else None}
+                    if unequal and c > 0 and g is None and rng.random() < unequal:
+                        # a chord member with its own (shorter) notated value: half of a binary value stays expressible
+                        half = d / 2
+                        if half in SYM and (off + half) == (off + half) and tmap_ok(tmap, off + half):
+                            n["e"] = tmap(off + half)
+                            n["sym"] = {"type": SYM[half][0], "dots": SYM[half][1]}
                     if kind == "note":
                         for _ in range(10):
                             step = rng.choice(STEPS)
@@ -233,6 +312,9 @@ def gen_part(rng, pid, plan, has_pickup, profile):
                         n.update({"step": step, "alter": alter, "octave": octave})
                     notes.append(n)
         t += int(ln)
+        if m in mid_split and m + 1 < len(plan):
+            # the next measure must state its divisions if they differ from q2
+            pass
     end_t = t
     part = {
         "id": pid,
